@@ -22,16 +22,18 @@ static bool Path1InsidePath2(OutPt* a, OutPt* b) { return g_p1in2; }
 OutRecList g_lists[2]; int g_nlists;
 static OutRecList* vf_new_list(void) { __CPROVER_assert(g_nlists < 2, "lists"); OutRecList* l = &g_lists[g_nlists++]; l->size = 0; return l; }
 static void vf_list_push(OutRecList* l, OutRec* o, OutRec* outrec) { if (o == outrec) g_nsplits_newor++; else g_nsplits_outrec++; l->size++; }
-//@extract file=CPP/Clipper2Lib/src/clipper.engine.cpp func=ClipperBase::DoSplitOp self=ClipperBase cpp=NOTHING selfcalls=NewOutRec
-//@sub /GetSegmentIntersectPt\(([^;]*?), ip\);/GetSegmentIntersectPt(\1, &ip);/
-//@sub /ip == prevOp->pt \|\| ip == nextNextOp->pt/Point64_eq(ip, prevOp->pt) || Point64_eq(ip, nextNextOp->pt)/ min=0
-//@sub /ip == nextNextOp->pt/Point64_eq(ip, nextNextOp->pt)/ min=0
-//@sub /ip == prevOp->pt/Point64_eq(ip, prevOp->pt)/ min=0
-//@sub /new OutPt\(/vf_new_outpt(/ min=2
-//@sub /new OutRecList\(\)/vf_new_list()/ min=0
-//@sub /(\w+)->splits->emplace_back\((\w+)\);/vf_list_push(\1->splits, \2, outrec);/ min=0
-//@sub /delete ([^;]+);/VF_DELETE(\1);/ min=0
-//@sub /std::fabs\(/fabs(/ min=0
+#ifdef USINGZ
+/* (C15) the callback of a repaired self-intersection: a recording stub that assigns z */
+int g_zcb_n; int64_t g_zcb_z; Point64 g_zcb_a, g_zcb_b, g_zcb_c, g_zcb_d; VF_ZCallback64 g_zcb;
+static void vf_zcb(const Point64* a, const Point64* b, const Point64* c, const Point64* d, Point64* ip) { g_zcb_n++; g_zcb_a = *a; g_zcb_b = *b; g_zcb_c = *c; g_zcb_d = *d; ip->z = g_zcb_z; }
+#endif
+//@extract file=CPP/Clipper2Lib/src/clipper.engine.cpp func=ClipperBase::DoSplitOp self=ClipperBase cpp=USINGZ selfcalls=NewOutRec ifdef=USINGZ
+//@include C03_splitop_subs.inc
+//@sub /self->zCallback_\)/g_zcb)/ min=0
+//@sub /(?<![\w>])zCallback_\(([^;,]*), ([^;,]*),\s*([^;,]*), ([^;,]*), ip\);/vf_zcb(&\1, &\2, &\3, &\4, &ip);/ min=0
+//@end
+//@extract file=CPP/Clipper2Lib/src/clipper.engine.cpp func=ClipperBase::DoSplitOp self=ClipperBase cpp=NOTHING selfcalls=NewOutRec ifndef=USINGZ
+//@include C03_splitop_subs.inc
 //@end
 void h_Split(void)
 {
@@ -43,9 +45,22 @@ void h_Split(void)
   __CPROVER_assume(!__CPROVER_isnand(g_area1) && !__CPROVER_isnand(g_area2));
   /* the input ring has no equal neighbours (CleanCollinear ran before) */
   for (int i = 0; i < R; ++i) __CPROVER_assume(!Point64_eq(g_ring[i].pt, g_ring[(i + 1) % R].pt));
+#ifdef USINGZ
+  g_zcb = nondet_bool() ? (VF_ZCallback64)1 : (VF_ZCallback64)0; g_zcb_n = 0; g_zcb_z = nondet_i64();
+  for (int i = 0; i < R; ++i) g_ring[i].pt.z = nondet_i64();
+  g_ip.z = nondet_i64();
+  Point64 zp0 = g_ring[0].pt, zp1 = g_ring[1].pt, zp2 = g_ring[2].pt, zp3 = g_ring[3 % R].pt;
+#endif
   g_nnew = 0; g_nnewor = 0; g_disposed_all = false; g_nlists = 0; g_nsplits_outrec = 0; g_nsplits_newor = 0;
   OutPt* prevOp = &g_ring[0]; OutPt* splitOp = &g_ring[1]; OutPt* nextOp = &g_ring[2]; OutPt* nnOp = &g_ring[3];
   DoSplitOp(&cb, &orec, splitOp);
+#ifdef USINGZ
+  /* (C15) with a callback installed the intersection vertex is passed to it exactly once, with the four end points of the two crossing segments, before anything is built from it */
+  __CPROVER_assert(g_zcb_n == (g_zcb ? 1 : 0), "callback called once iff installed");
+  if (g_zcb) __CPROVER_assert(Point64_eq(g_zcb_a, zp0) && Point64_eq(g_zcb_b, zp1) && Point64_eq(g_zcb_c, zp2) && Point64_eq(g_zcb_d, zp3), "with prevOp, splitOp, splitOp->next, nextNextOp");
+  if (g_zcb && g_nnew > 0) __CPROVER_assert(g_new[0].pt.z == g_zcb_z, "every new vertex carries the z the callback assigned");
+  if (g_zcb && g_nnew > 1) __CPROVER_assert(g_new[1].pt.z == g_zcb_z, "every new vertex carries the z the callback assigned");
+#endif
   if (orec.pts == NULL) __CPROVER_assert(g_disposed_all, "a path that vanishes is disposed as a whole");
   else {
     __CPROVER_assert(orec.pts == prevOp, "the surviving ring is entered at prevOp");
@@ -73,4 +88,6 @@ void h_Split(void)
 //@run name=DoSplitOp.ring6 entry=h_Split defs=R=6 unwind=8 flags="--bounds-check --pointer-check" solver=cadical timeout=300
 //@run name=DoSplitOp.ring5 entry=h_Split defs=R=5 unwind=8 flags="--bounds-check --pointer-check" solver=cadical timeout=300
 //@run name=DoSplitOp.ring4 entry=h_Split defs=R=4 unwind=8 flags="--bounds-check --pointer-check" solver=cadical timeout=300
-//@assume A5 (C03_splitop): GetSegmentIntersectPt, Area, AreaTriangle and Path1InsidePath2 answer arbitrarily; new/delete are a pool with double-delete detection; the USINGZ callback line is compiled out (cpp=NOTHING).
+//@assume A5 (C03_splitop): GetSegmentIntersectPt, Area, AreaTriangle and Path1InsidePath2 answer arbitrarily; new/delete are a pool with double-delete detection; the .Z runs compile the USINGZ callback line in (the callback is a recording stub).
+//@run name=DoSplitOp.ring5.Z entry=h_Split defs=R=5,USINGZ unwind=8 flags="--bounds-check --pointer-check" solver=cadical timeout=300 props=C15,C03
+//@run name=DoSplitOp.ring4.Z entry=h_Split defs=R=4,USINGZ unwind=8 flags="--bounds-check --pointer-check" solver=cadical timeout=300 props=C15,C03
